@@ -333,6 +333,20 @@ fn denomination_tables(ex: &mut Ex, s: &mut String, it: &Items) {
 }
 
 /// `self.0.checked_add(rhs.0).map(Amount)` → ("checked_add", wraps result in the newtype)
+fn delegation_block(b: &Block, newtype: &str) -> Option<String> {
+    if let Some(e) = block_tail(b) { if b.stmts.len() == 1 { if let Some(d) = delegation(e, newtype) { return Some(d); } } }
+    // `let v = self.0.<op>(rhs.0)?; Some(Newtype(v))`  and  `Some(Newtype(self.0.<op>(rhs.0)?))`
+    let inner_of = |e: &Expr| -> Option<String> { if let Expr::Try(t) = e { if let Expr::MethodCall(inner) = &*t.expr { if toks(&inner.receiver) == "self.0" && inner.args.len() == 1 {
+        let a = toks(&inner.args[0]); if a == "rhs.0" || a == "rhs" { return Some(inner.method.to_string()); } } } } None };
+    let wrap_arg = |e: &Expr| -> Option<Expr> { if let Expr::Call(c) = e { if toks(&c.func) == "Some" && c.args.len() == 1 { if let Expr::Call(c2) = &c.args[0] { let f = toks(&c2.func); if (f == newtype || f == "Self") && c2.args.len() == 1 { return Some(c2.args[0].clone()); } } } } None };
+    match b.stmts.as_slice() {
+        [Stmt::Expr(e, None)] => wrap_arg(e).and_then(|a| inner_of(&a)),
+        [Stmt::Local(l), Stmt::Expr(e, None)] => { let name = if let Pat::Ident(i) = &l.pat { i.ident.to_string() } else { return None };
+            let init = l.init.as_ref()?; if init.diverge.is_some() { return None; }
+            let op = inner_of(&init.expr)?; let a = wrap_arg(e)?; if toks(&a) == name { Some(op) } else { None } }
+        _ => None,
+    }
+}
 fn delegation(e: &Expr, newtype: &str) -> Option<String> {
     if let Expr::MethodCall(map) = e { if map.method == "map" && map.args.len() == 1 && toks(&map.args[0]) == newtype {
         if let Expr::MethodCall(inner) = &*map.receiver { if toks(&inner.receiver) == "self.0" && inner.args.len() == 1 {
@@ -359,7 +373,7 @@ fn amount_tables(ex: &mut Ex, s: &mut String, it: &Items) {
     for (ty, pre) in [("Amount", "u"), ("SignedAmount", "s")] {
         for m in ["checked_add", "checked_sub", "checked_mul", "checked_div", "checked_rem"] {
             let item = format!("amount.{}.{}", ty, m);
-            let v = find_fn(it, ty, "", m).and_then(|f| block_tail(&f.block)).and_then(|e| delegation(e, ty));
+            let v = find_fn(it, ty, "", m).and_then(|f| delegation_block(&f.block, ty));
             match v { Some(op) if STD_OPS.contains(&op.as_str()) => writeln!(s, "def {}_{} : Option StdOp := some .{}", pre, m, op).unwrap(),
                 _ => { ex.fail(&item, "body is not `self.0.<std method>(rhs).map(Newtype)` with a known std method"); writeln!(s, "def {}_{} : Option StdOp := none", pre, m).unwrap(); } }
         }
@@ -454,9 +468,67 @@ fn panic_inventory(outdir: &str) {
     std::fs::write(format!("{}/panic_sites.json", outdir), serde_json::to_string_pretty(&js).unwrap()).unwrap();
 }
 
-pub fn run(outdir: &str) -> Vec<String> {
+/// the Lean definitions an extraction item feeds
+fn defs_of_item(item: &str) -> Vec<String> {
+    let lower = |t: &str| t[..1].to_lowercase() + &t[1..];
+    let p: Vec<&str> = item.split('.').collect();
+    match p.as_slice() {
+        ["codec", "RctType", "is_rct_bp"] => vec!["isRctBp".into()], ["codec", "RctType", "is_rct_bp_plus"] => vec!["isRctBpPlus".into()],
+        ["codec", "encode"] => vec!["txInEncode".into(), "txOutTargetEncode".into(), "subFieldEncode".into(), "rctTypeEncode".into()],
+        ["codec", ty, "decode"] => vec![format!("{}Decode", lower(ty))], ["codec", ty, "encode"] => vec![format!("{}Encode", lower(ty))],
+        ["codec", ty, f] => { let n = match (*ty, *f) { ("EcdhInfo", "consensus_decode") => "ecdhDec", ("RctSigBase", "consensus_decode") => "baseDec", ("RctSigBase", "consensus_encode") => "baseEnc",
+            ("RctSigPrunable", "consensus_decode") => "prunDec", ("RctSigPrunable", "consensus_encode") => "prunEnc", _ => return vec![] }; vec![format!("{}Matches", n), format!("{}Eqs", n)] }
+        ["network", "as_u8"] => vec!["asU8".into()], ["network", "from_u8"] => vec!["fromU8".into()],
+        ["address", "from_slice"] => vec!["addrType".into(), "addrTypeEmptyIsError".into()],
+        ["amount", "precision"] => vec!["precision".into()], ["amount", "denom_display"] => vec!["denomDisplay".into()], ["amount", "denom_fromstr"] => vec!["denomFromStr".into()],
+        ["amount", ty, m] => { let pre = if *ty == "Amount" { "u" } else { "s" };
+            if m.starts_with("checked_") || m.starts_with("op_") { vec![format!("{}_{}", pre, m)] } else { vec![format!("shape_{}_{}", ty, m)] } }
+        [c] => vec![c.to_string()],
+        _ => vec![],
+    }
+}
+fn def_name(line: &str) -> Option<&str> { line.strip_prefix("def ").and_then(|r| r.split(|c: char| c == ' ' || c == ':').next()) }
+fn rows_norm(v: &str) -> String { let t = v.trim().trim_start_matches('[').trim_end_matches(']'); let mut r: Vec<String> = t.split("), (").map(|x| x.replace(['(', ')'], "")).collect(); r.sort(); r.join("|") }
+/// Second pass over a generated file: observed tables replace the syntactic reading (a disagreement is a note); a definition
+/// whose syntactic extraction failed and that cannot be observed falls back to the REVIEWED definition (lean/GenReviewed), the
+/// failure becomes a note, and the tie of that item to the current source is the differential run of the properties using it.
+fn finalize(text: String, reviewed: &str, obs: &crate::observe::Observed, failed_defs: &std::collections::HashMap<String, String>, resolved: &mut Vec<String>, notes: &mut Vec<String>) -> String {
+    let mut out = String::new();
+    for line in text.lines() {
+        let name = def_name(line);
+        let mut done = false;
+        if let Some(n) = name {
+            if let Some((_, v)) = obs.defs.iter().find(|d| d.0 == n) {
+                if let Some(i) = line.find(":= ") { let syn = &line[i + 3..];
+                    if !failed_defs.contains_key(n) && rows_norm(syn) != rows_norm(v) { notes.push(format!("EXTRACT-NOTE {}: the syntactic reading of the source ({}) differs from the observed behaviour ({}); the observed table is used", n, syn, v)); }
+                    if failed_defs.contains_key(n) { notes.push(format!("EXTRACT-NOTE {}: syntactic extraction failed ({}); the table observed by evaluating the function on its whole domain is used", n, failed_defs[n])); }
+                    writeln!(out, "{}:= {}", &line[..i], v).unwrap(); resolved.push(n.to_string()); done = true; }
+            } else if (n.ends_with("Matches") || n.ends_with("Eqs") || n.starts_with("shape_")) && !failed_defs.contains_key(n)
+                      && reviewed.lines().find(|l| def_name(l) == Some(n)).map(|r| r != line).unwrap_or(false) {
+                // purely structural items (which `match`es a codec branches on, whether a body has the reviewed token shape): a
+                // different structure is not a different behaviour. The reviewed structure is kept — it is what the hand-written
+                // model mirrors — and the model is tied to the restructured code by the differential run.
+                let r = reviewed.lines().find(|l| def_name(l) == Some(n)).unwrap();
+                writeln!(out, "-- REVIEWED STRUCTURE kept: the current source is structured differently ({})", line).unwrap();
+                writeln!(out, "{}", r).unwrap(); done = true;
+                notes.push(format!("EXTRACT-NOTE {}: the current source is structured differently from the reviewed one; tie is differential", n));
+            } else if let Some(why) = failed_defs.get(n) {
+                if let Some(r) = reviewed.lines().find(|l| def_name(l) == Some(n)) {
+                    writeln!(out, "-- REVIEWED DEFAULT: syntactic extraction failed on the current source ({}); this item is tied to the code by the differential run only", why.replace('\n', " ")).unwrap();
+                    writeln!(out, "{}", r).unwrap(); resolved.push(n.to_string()); done = true;
+                    notes.push(format!("EXTRACT-NOTE {}: syntactic extraction failed ({}); reviewed definition kept, tie is differential", n, why));
+                }
+            }
+        }
+        if !done { writeln!(out, "{}", line).unwrap(); }
+    }
+    out
+}
+
+pub fn run(outdir: &str, reviewed_dir: &str) -> Vec<String> {
     let mut ex = Ex { fails: vec![] };
     std::fs::create_dir_all(outdir).unwrap();
+    let mut pending: Vec<(String, String)> = vec![]; // (file, text) before the second pass
     let hdr = "/-! GENERATED by `harness extract` from /repo's current source on every run — do not edit. -/\n";
     // ---- Consts.lean
     let mut s = String::from(hdr);
@@ -468,20 +540,20 @@ pub fn run(outdir: &str) -> Vec<String> {
     }
     byte_constants(&mut ex, &mut s);
     writeln!(s, "end Gen").unwrap();
-    std::fs::write(format!("{}/Consts.lean", outdir), s).unwrap();
+    pending.push(("Consts".to_string(), s));
     // ---- Tables.lean (network / address type)
     let mut s = String::from("import MoneroModel.Types\n") + hdr;
     writeln!(s, "namespace Gen").unwrap();
     network_tables(&mut ex, &mut s);
     address_tables(&mut ex, &mut s);
     writeln!(s, "end Gen").unwrap();
-    std::fs::write(format!("{}/Tables.lean", outdir), s).unwrap();
+    pending.push(("Tables".to_string(), s));
     // ---- Codec.lean (tag tables and RctType variant sets of the consensus codec)
     let mut s = String::from("import MoneroModel.Types\n") + hdr;
     writeln!(s, "namespace Gen").unwrap();
     codec_tables(&mut ex, &mut s);
     writeln!(s, "end Gen").unwrap();
-    std::fs::write(format!("{}/Codec.lean", outdir), s).unwrap();
+    pending.push(("Codec".to_string(), s));
     // ---- Amount.lean
     let mut s = String::from("import MoneroModel.Types\nimport MoneroModel.Model.StdInt\n") + hdr;
     writeln!(s, "namespace Gen").unwrap();
@@ -489,7 +561,7 @@ pub fn run(outdir: &str) -> Vec<String> {
     denomination_tables(&mut ex, &mut s, &it);
     amount_tables(&mut ex, &mut s, &it);
     writeln!(s, "end Gen").unwrap();
-    std::fs::write(format!("{}/Amount.lean", outdir), s).unwrap();
+    pending.push(("Amount".to_string(), s));
     panic_inventory(outdir);
     field_orders(outdir);
     // ---- Sizes.lean: std::mem::size_of of the vector element types in THIS build of /repo
@@ -502,5 +574,24 @@ pub fn run(outdir: &str) -> Vec<String> {
             size_of::<TxIn>(), size_of::<TxOut>(), size_of::<VarInt>(), size_of::<Key>(), size_of::<Bulletproof>(), size_of::<BulletproofPlus>(), size_of::<u8>(), size_of::<RangeSig>());
         std::fs::write(format!("{}/Sizes.lean", outdir), s).unwrap();
     }
-    ex.fails
+    // ---- second pass: observed tables, reviewed fallbacks
+    let mut cands: Vec<String> = vec![];
+    for fl in [format!("{}/Amount.lean.txt", reviewed_dir)] { if let Ok(t) = std::fs::read_to_string(&fl) { if let Some(l) = t.lines().find(|l| def_name(l) == Some("denomFromStr")) {
+        for part in l.split("([").skip(1) { if let Some(e) = part.find(']') { let b: Vec<u8> = part[..e].split(',').filter_map(|x| x.trim().parse().ok()).collect(); if let Ok(st) = String::from_utf8(b) { cands.push(st); } } } } } }
+    { let am = read("src/util/amount.rs"); struct S(Vec<String>); impl<'a> Visit<'a> for S { fn visit_lit_str(&mut self, l: &'a LitStr) { if l.value().len() <= 16 { self.0.push(l.value()); } } } let mut v = S(vec![]); v.visit_file(&am); cands.extend(v.0); }
+    let obs = crate::observe::run(&cands);
+    let mut failed_defs = std::collections::HashMap::new();
+    for f in &ex.fails { if let Some(rest) = f.strip_prefix("EXTRACT-FAIL ") { if let Some((item, why)) = rest.split_once(": ") { for d in defs_of_item(item) { failed_defs.entry(d).or_insert_with(|| why.to_string()); } } } }
+    let mut resolved = vec![]; let mut notes = vec![];
+    for (file, text) in pending {
+        let reviewed = std::fs::read_to_string(format!("{}/{}.lean.txt", reviewed_dir, file)).unwrap_or_default();
+        let t = finalize(text, &reviewed, &obs, &failed_defs, &mut resolved, &mut notes);
+        std::fs::write(format!("{}/{}.lean", outdir, file), t).unwrap();
+    }
+    // a syntactic failure all of whose definitions were resolved (observed or reviewed) is no longer a failure
+    let mut out: Vec<String> = ex.fails.into_iter().filter(|f| { let item = f.strip_prefix("EXTRACT-FAIL ").and_then(|r| r.split_once(": ")).map(|x| x.0).unwrap_or(""); let ds = defs_of_item(item); ds.is_empty() || !ds.iter().all(|d| resolved.contains(d)) }).collect();
+    out.extend(obs.fails);
+    notes.sort(); notes.dedup();
+    out.extend(notes);
+    out
 }
